@@ -1,5 +1,5 @@
 (* C18 - User state and inspectors see a history consistent with the parse. *)
-From Chum Require Import Corollaries.
+From Chum Require Import Corollaries NestedP.
 
 (* For an inspector whose checkpoint is a snapshot: after every successful (sub-)parse the state
    equals the fold of on_token over exactly the tokens before the cursor, however much
@@ -30,6 +30,23 @@ Example C18_example :
     = Ok (Some (VPair (VList [VTok 97%N]) (VNum (ust_at toks 1)))).
 Proof. vm_compute. reflexivity. Qed.
 
+(* with_state(st): the sub-parser runs on a copy of st (whatever the outer state is: two invocations that differ only in the
+   outer state behave identically), and the outer state is untouched afterwards.  (The observed state is then no longer a
+   function of the position, so grammars containing with_state are outside the positional theorems above; the machine
+   clause is what the correspondence run ties to the code.) *)
+Theorem C18_with_state_leaves_outer_state_untouched :
+  forall Q K toks spn f n m k a ctx s,
+    nested Q = Some f -> ust (snd (go Q K toks spn (S n) m (WithState k a) ctx s)) = ust s.
+Proof. exact with_state_outer_untouched. Qed.
+
+Theorem C18_with_state_starts_from_a_fresh_copy :
+  forall Q K toks spn f n m k a ctx s s',
+    nested Q = Some f -> cur s = cur s' -> sec s = sec s' -> alt s = alt s' -> memo s = memo s' ->
+    fst (go Q K toks spn (S n) m (WithState k a) ctx s) = fst (go Q K toks spn (S n) m (WithState k a) ctx s').
+Proof. exact with_state_inner_is_fresh. Qed.
+
 Print Assumptions C18_state_is_fold_of_consumed_prefix.
+Print Assumptions C18_with_state_leaves_outer_state_untouched.
+Print Assumptions C18_with_state_starts_from_a_fresh_copy.
 Print Assumptions C18_observed_state_is_prefix_fold.
 Print Assumptions C18_initial_state_consistent.
